@@ -36,6 +36,20 @@ objs=[f*dot(grad(f),n)*v*ds]'''),
     corpus._c("c02_facetarea_cellvolume_tet", '''
 m=mesh("tetrahedron"); V=space(m,"P",1); v=TestFunction(V)
 objs=[FacetArea(m)*v*ds + CellVolume(m)*v*ds + avg(CellVolume(m))*avg(v)*dS + Circumradius(m)*v*ds]'''),
+    # quantities read straight from the vertex coordinates, per side of an interior facet, in 1D/2D/3D
+    corpus._c("c02_vertex_geometry_sides_tri", '''
+m=mesh("triangle"); V=space(m,"DP",1); v=TestFunction(V); h=CellDiameter(m); r=Circumradius(m)
+objs=[h('-')*v('+')*dS + h('+')*v('-')*dS + r('-')*avg(v)*dS + MinCellEdgeLength(m)('-')*v('+')*dS + MaxCellEdgeLength(m)('-')*v('-')*dS]'''),
+    corpus._c("c02_vertex_geometry_sides_quad", '''
+m=mesh("quadrilateral"); V=space(m,"DQ",1); u,v=TrialFunction(V),TestFunction(V); h=CellDiameter(m)
+objs=[avg(h)*jump(u)*jump(v)*dS + MinCellEdgeLength(m)('-')*u('+')*v('-')*dS + h*u*v*ds]'''),
+    corpus._c("c02_vertex_geometry_sides_tet_interval", '''
+m=mesh("tetrahedron"); V=space(m,"DP",1); v=TestFunction(V); h=CellDiameter(m); r=Circumradius(m)
+m1=mesh("interval"); V1=space(m1,"DP",1); v1=TestFunction(V1)
+objs=[h('-')*v('+')*dS + r('-')*v('-')*dS + MaxFacetEdgeLength(m)('+')*v('-')*dS + MinFacetEdgeLength(m)*v*ds, CellDiameter(m1)('-')*v1('+')*dS + CellVolume(m1)('-')*v1('-')*dS]'''),
+    corpus._c("c02_vertex_geometry_manifold_tri3d", '''
+m=mesh("triangle",1,3); V=space(m,"DP",1); v=TestFunction(V); h=CellDiameter(m)
+objs=[h('-')*v('+')*dS + h*v*ds]'''),
 ]
 
 
